@@ -208,7 +208,7 @@ public:
     explicit request(const sim::ReqPtr& r) : r_(r) {}
     status wait() { sim::MsgStatus s; if (r_) detail::W().wait(r_, &s); return status(s); }
     optional<status> test() {
-        if (!r_) return optional<status>();
+        if (!r_) { if (detail::in_sim()) sim::cur()->idle_tick(); return optional<status>(); }
         sim::MsgStatus s;
         if (detail::W().test(r_, &s)) return optional<status>(status(s));
         return optional<status>();
